@@ -466,6 +466,13 @@ func (c *Client) monitor(ctx context.Context) {
 						}
 						dlog.Printf("namespaces updated")
 
+						// the session and its subscriptions still exist on the
+						// server: ask for the notifications we have missed and
+						// resume publishing.
+						subsToRepublish = c.SubscriptionIDs()
+						subsToRecreate = nil
+						availableSeqs = nil
+
 						action = restoreSubscriptions
 
 					case recreateSession:
